@@ -76,6 +76,8 @@ def directional(f, x, v, h0):
 def second_directional(f, x, u, v, h=2e-3):
     """D^2 f(x)[u, v] by the four-point central second difference + one Richardson step."""
 
+    fmax = [0.0]
+
     def sd(h):
         a = _asarr(f(x + h * u + h * v))
         b = _asarr(f(x + h * u - h * v))
@@ -84,6 +86,7 @@ def second_directional(f, x, u, v, h=2e-3):
         for y in (a, b, c, d):
             if y.shape != a.shape or not onp.all(onp.isfinite(y)):
                 raise Inconclusive("non-finite / shape change")
+            fmax[0] = max(fmax[0], float(onp.max(onp.abs(y), initial=0.0)))
         return (a - b - c + d) / (4 * h * h)
 
     def rich(h):
@@ -92,6 +95,8 @@ def second_directional(f, x, u, v, h=2e-3):
     e1 = rich(h)
     e2 = rich(h / 2)
     err = float(onp.max(onp.abs(e1 - e2), initial=0.0))
+    # rounding error of the smallest step: four function values of magnitude fmax divided by 4 (h/4)^2
+    err = max(err, 8 * onp.finfo(float).eps * fmax[0] / ((h / 4) ** 2))
     scale = max(1.0, float(onp.max(onp.abs(e2), initial=0.0)))
     if not (err <= 2e-7 * scale):
         raise Inconclusive(f"second-difference error estimate {err:.2e}")
